@@ -177,6 +177,13 @@ func Catalogue() []Prog {
 	add("full-document", F, "<!DOCTYPE html>\n<html lang=\"en\"><head><meta charset=\"utf-8\"><title>{{ title }}</title></head><body class=\"b\"><p v-if=\"show\">{{ user.name }}</p></body></html>", nil, nil, false)
 	add("file-filter", F, `<pre v-html="file('@D/inc.txt')"></pre><p>{{ incpath | file }}</p>`, map[string]string{"inc.txt": "included <text> & more"}, map[string]TV{"incpath": tvS("@D/inc.txt")}, false)
 
+	// site configuration (theme.yml, data/*.yml) with nested maps: read as it is by one page, partly overridden by another page's data
+	cfgRead := `<p>{{ cfgsite.name }}|{{ cfgsite.tagline }}|{{ cfgsite.nested.deep }}|{{ cfgmenu.items[0] }}</p><i v-if="cfgsite.nested.flag">flag</i>`
+	add("cfg-read", F, cfgRead, map[string]string{
+		"/theme.yml":     "cfgsite:\n  name: Site Name\n  tagline: Tag line\n  nested:\n    deep: deep-default\n    flag: false\n",
+		"/data/cfgmenu.yml": "items:\n  - home\n  - about\n"}, nil, false)
+	add("cfg-override", F, cfgRead, nil, map[string]TV{"cfgsite": tvMap(map[string]TV{"name": tvS("Mine"), "nested": tvMap(map[string]TV{"deep": tvS("deep-mine"), "flag": tvB(true)})}),
+		"cfgmenu": tvMap(map[string]TV{"items": tvList(tvS("private"))})}, false)
 	// no caller data at all: the page's own front-matter is the whole scope, and the page writes into the root scope
 	add("fm-only-accumulate", F, "---\ntotal: 0\nstep: 3\nrows:\n  - 1\n  - 2\n---\n<i v-if=\"seen\">seen before</i><i v-else>first time</i><template :seen=\"step > 1\"></template><template v-for=\"r in rows\"><template :total=\"total + step\"></template></template><p>total={{ total }} step={{ step }}</p>", nil, nil, false)
 	out[len(out)-1].NoData = true
